@@ -570,8 +570,30 @@ func c13canon(b []byte) string {
 	} else {
 		dir = append(dir, "unreadable")
 	}
-	return fmt.Sprintf("len=%d hdr=%d,%d,%d,%d,%d,%d,%d hd=%s tbl=%s dir=%s h=%d", len(b), h(0x2C), h(0x30), h(0x38), h(0x3C), h(0x40), h(0x44), h(0x48),
-		c13rle(hd), c13rle(tbl), strings.Join(dir, ";"), c13fnv(b))
+	// byte regions described through the directory: streams at or above the cutoff and the mini stream container
+	var regs []string
+	if doc, err := c13ReadLoose(b); err == nil {
+		for _, e := range doc {
+			if e.blank || !((e.typ == 2 && e.size >= 4096) || (e.typ == 5 && e.size > 0)) || e.start < 0 {
+				continue
+			}
+			n := (int(e.size) + 511) / 512
+			lo, hi := 512*(int(e.start)+1), 512*(int(e.start)+1+n)
+			if lo > len(b) {
+				lo = len(b)
+			}
+			if hi > len(b) {
+				hi = len(b)
+			}
+			regs = append(regs, fmt.Sprintf("%s:%d:%d:%d", hx(e.name), e.start, n, c13fnv(b[lo:hi])))
+		}
+	}
+	reg := "-"
+	if len(regs) > 0 {
+		reg = strings.Join(regs, ";")
+	}
+	return fmt.Sprintf("len=%d hdr=%d,%d,%d,%d,%d,%d,%d hd=%s tbl=%s dir=%s hdr76=%s reg=%s h=%d", len(b), h(0x2C), h(0x30), h(0x38), h(0x3C), h(0x40), h(0x44), h(0x48),
+		c13rle(hd), c13rle(tbl), strings.Join(dir, ";"), hx(string(b[:76])), reg, c13fnv(b))
 }
 
 // c13ReadLoose returns the directory entries in file order, located by following the FAT
